@@ -562,3 +562,6 @@ def decide_inconclusive(obs, results, cases):
     if obs.get('comparisons', 0) == 0 or obs.get('cross_process_transfers', 0) == 0 or obs.get('nestings', 0) == 0 or obs.get('children', 0) == 0:
         return 'no comparison / cross-process transfer / nesting / child step was observed'
     return None
+
+
+RULE = RULE + '; sender drops its proxy while the argument is in transit to a new child'
